@@ -11,16 +11,25 @@ seed-sampled choice) three tiny scripts
    odd     1 frame, then block + 2 frames in a second call, header update, close   -- partial LAST block, state carried over calls
    reader  re-open (of the file `odd` made, in the same process: the reader's structs are recycled heap), read 2 items / seek 1 /
            read 5 frames / seek 0 / read across the first block
-each run under the allocator fills of heapcamp (ASan default, 0x4b, 0xd7: every malloc'ed byte is pre-filled, calloc still zeroes).
-Everything a script prints -- return values, the data read back, the bytes of the closed file -- must be identical under all fills.
+each run under three allocator fills (ASan run-time options of vlib/heapcamp.py): 0x00 = the heap of a fresh process (what every test
+sees), 0x4b and 0xd7 = recycled memory (every malloc'ed byte pre-filled, calloc still zeroes).  Everything a script prints -- return
+values, the data read back, the bytes of the closed file -- must be identical under all fills; a run that DIES under a non-zero fill
+while the zero-filled run completes is a difference like any other (an index or a length taken from uninitialised memory).
 The model side is the oracle `Junk` of lean/SfModel/HeaderBuf.lean generalised to codec state: lean/SfModel/HeapInit.lean
 (`Sf.HeapInit`: a private struct as cells, `Init.calloc | mallocMemsetAll | mallocPartial`), theorems lean/SfProps/C19HeapInit.lean.
 
 For C07 only the writer part counts (up to the dump of the closed file); the replay carries `c07-heapfill <byte>` and is re-judged by
-`bin/check C07 --replay f`.  For C19 the whole transcript counts (`c19-heapfill <byte>`, vlib/heapcamp.py `replay`)."""
+`bin/check C07 --replay f`.  For C19 the whole transcript counts (`c19-heapcodec <byte>`, `bin/check C19 --replay f`)."""
 import collections, re
 
 from . import scripts as S, worldcamp as WC, heapcamp as HC
+
+
+FILLS = [0x00, 0x4B, 0xD7]
+
+
+def run_fills(ctx, env, jobs):
+    return [ctx.batch([(n, t) for (n, t, _) in jobs], clean=True, env=HC.fill_env(env, fill), workers=4) for fill in FILLS]
 
 
 def hx16(vals):
@@ -82,7 +91,7 @@ def run(ctx, prop, env, fs):
     """prop: "C19" (whole transcripts) | "C07" (the writer part: results of the write calls and the closed file's bytes).
     Returns True when a failing input was reported."""
     jobs = make_jobs(ctx, fs)
-    outs = HC.run_fills(ctx, env, jobs)
+    outs = run_fills(ctx, env, jobs)
     stats = collections.Counter()
     fails = []
     for (name, text, f) in jobs:
@@ -98,10 +107,10 @@ def run(ctx, prop, env, fs):
         for i in (1, 2):
             d = HC.first_diff(tr[0], tr[i]) or (HC.first_diff(tr[1], tr[2]) if i == 2 else None)
             if d is not None:
-                fails.append((name, text, f, HC.FILLS[i], d))
+                fails.append((name, text, f, FILLS[i], d))
                 break
-    ctx.count(stats["ops"] * len(HC.FILLS), "heap-codec")
-    ctx.notes["heap_codec_state"] = dict(stats, fills=["default"] + ["0x%02x" % x for x in HC.FILLS[1:]], failures=len(fails), formats=len(set(f.name for (_, _, f) in jobs)))
+    ctx.count(stats["ops"] * len(FILLS), "heap-codec")
+    ctx.notes["heap_codec_state"] = dict(stats, fills=["0x%02x" % x for x in FILLS], failures=len(fails), formats=len(set(f.name for (_, _, f) in jobs)))
     seen = set()
     for (name, text, f, fill, (k, x, y)) in fails:
         if f.codec in seen or len(seen) >= 3:
@@ -111,24 +120,24 @@ def run(ctx, prop, env, fs):
         if prop == "C07":
             ctx.violation("c07-heap-" + name,
                           "# C07 violated: the bytes of a written file depend on what the heap held before -- the same calls with the same samples give another file when the run is repeated later / in another process\n"
-                          "# format %s; fresh heap memory pre-filled with 0x%02x instead of the run-time's default: operation %d `%s` answers differently\n"
+                          "# format %s; fresh heap memory pre-filled with 0x%02x instead of zeros (the heap of a fresh process): operation %d `%s` answers differently\n"
                           "# %s\nc07-heapfill %d\n--- script\n%s\n" % (f.name, fill, k, ops[k][:80] if k < len(ops) else "", HC.describe(x, y), fill, "\n".join(writer_part(text))))
         else:
             ctx.violation("c19-heapcodec-" + name,
                           "# C19 violated: a handle's results depend on what the heap held before (earlier use of the library in the same process)\n"
-                          "# format %s; fresh heap memory pre-filled with 0x%02x instead of the run-time's default: operation %d `%s` answers differently\n"
-                          "# %s\nc19-heapfill %d\n--- script\n%s" % (f.name, fill, k, ops[k][:80] if k < len(ops) else "", HC.describe(x, y), fill, text))
+                          "# format %s; fresh heap memory pre-filled with 0x%02x instead of zeros (the heap of a fresh process): operation %d `%s` answers differently\n"
+                          "# %s\nc19-heapcodec %d\n--- script\n%s" % (f.name, fill, k, ops[k][:80] if k < len(ops) else "", HC.describe(x, y), fill, text))
     if jobs:
         ctx.sample({"kind": "codec-state heap script (run under 3 allocator fills)", "name": jobs[0][0], "lines": [l[:90] for l in WC.lines_of(jobs[0][1])[:7]]})
     return bool(fails)
 
 
 def replay(ctx, path, env):
-    """C07 replay (`c07-heapfill <byte>`): the script under the default allocator and two fills"""
+    """replay (`c07-heapfill <byte>` / `c19-heapcodec <byte>`): the script on a zero-filled heap and under two fills"""
     text = open(path).read()
-    fill = int(re.search(r"c07-heapfill (\d+)", text).group(1))
+    fill = int(re.search(r"(?:c07-heapfill|c19-heapcodec) (\d+)", text).group(1))
     script = text.split("--- script", 1)[1].lstrip("\n")
-    outs = [ctx.batch([("replay", script)], clean=True, env=HC.fill_env(env, fl))["replay"] for fl in (None, fill, 0xD7 if fill != 0xD7 else 0x4B)]
+    outs = [ctx.batch([("replay", script)], clean=True, env=HC.fill_env(env, fl))["replay"] for fl in (0, fill, 0xD7 if fill != 0xD7 else 0x4B)]
     tr = [HC.canon(script, o) for o in outs]
     d = HC.first_diff(tr[0], tr[1]) or HC.first_diff(tr[1], tr[2])
     if d is not None:
